@@ -21,7 +21,9 @@ FUNCTIONS = ["TaskPool.apply", "TaskPool._apply_spawner", "SimpleTaskPool.start"
              "BaseTaskPool._start_task", "BaseTaskPool._check_start", "BaseTaskPool.lock", "BaseTaskPool.gather_and_close"]
 
 A, B, KV = ("A",), ("B",), ("KV",)      # identity-checked sentinels
-SHAPES = (((), None), ((A,), None), ((A, B), None), ((), {"k": KV}), ((A,), {"k": KV, "j": B}))
+# the last shape's keyword names coincide with parameter names used inside the library (legal names for a user's function)
+SHAPES = (((), None), ((A,), None), ((A, B), None), ((), {"k": KV}),
+          ((A,), {"k": KV, "j": B, "func": A, "group_name": KV, "num": B, "args": A, "kwargs": KV, "self": B}))
 ALPHA = ("rel", "lock", "unlock", "gather", "cancel", "cgroup", "flush", "again", "nop")
 NOP = len(ALPHA) - 1
 
